@@ -143,6 +143,9 @@ func commandPattern(n *Node) string {
 	if n.BgTail {
 		b.WriteString(" -bg")
 	}
+	if n.BgLate {
+		b.WriteString(" -bglate")
+	}
 	if n.Head > 0 {
 		fmt.Fprintf(&b, " -head %d", n.Head)
 	}
